@@ -15,6 +15,7 @@ C06 — `records_per_chunk` never changes what is read, only how.
 import Alos2.Proofs.Geometry
 import Alos2.Props.C02
 import Alos2.Proofs.RpcIndep
+import Alos2.Proofs.ProductRpc
 
 namespace Alos2.C06
 
@@ -52,6 +53,14 @@ theorem image_rpc_independent (file : Bytes) (name : String) (rpc1 rpc2 : Nat)
   obtain ⟨a, b⟩ := readImageRecords_rpc_independent file rpc1 rpc2 hd1 hd2 recs1 recs2 hr1 hr2 L hL hdrL t ht hrl1 hty1 hrl2 hty2
   obtain ⟨c, d, e⟩ := openImageFile_rpc_independent file name rpc1 rpc2 n1 n2 g1 g2 h1 h2 hd1 hd2 recs1 recs2 hr1 hr2 L hL hdrL t ht hrl1 hty1 hrl2 hty2
   exact ⟨a, b, c, d, e⟩
+
+/-- the whole product: two successful opens with two chunk sizes agree on the root attributes, the summary, `/metadata` and
+    on which image groups exist, in which order (each image group: `image_rpc_independent`) -/
+theorem product_rpc_independent (fs : Files) (rpc1 rpc2 : Nat) (p1 p2 : Product)
+    (h1 : openProduct fs rpc1 = .ok p1) (h2 : openProduct fs rpc2 = .ok p2) :
+    p1.rootAttrs = p2.rootAttrs ∧ p1.summary = p2.summary ∧ p1.metadata = p2.metadata ∧
+    p1.imagery.map Prod.fst = p2.imagery.map Prod.fst :=
+  openProduct_rpc_independent fs rpc1 rpc2 p1 p2 h1 h2
 
 theorem preferred_chunksize (rpc n : Nat) : normalizeChunksize rpc n = min rpc n :=
   normalizeChunksize_eq_min rpc n
